@@ -87,24 +87,14 @@ func safeDo(s suite, toks []string) (res string) {
 	return s.do(toks)
 }
 
+// registry of suites; every suite_*.go registers itself in an init() function
+var registry = map[string]func(opts map[string]string) suite{}
+
+func register(name string, f func(opts map[string]string) suite) { registry[name] = f }
+
 func newSuite(name string, opts map[string]string) suite {
-	switch name {
-	case "coder":
-		return &coderSuite{}
-	case "engine":
-		return newEngineSuite(opts)
-	case "backend":
-		return newBackendSuite(opts)
-	case "ring":
-		return newRingSuite(opts)
-	case "election":
-		return newElectionSuite(opts)
-	case "etcd":
-		return newEtcdSuite(opts)
-	case "brain":
-		return newBrainSuite(opts)
-	case "follower":
-		return newFollowerSuite(opts)
+	if f, ok := registry[name]; ok {
+		return f(opts)
 	}
 	panic("unknown suite " + name)
 }
